@@ -485,7 +485,24 @@ func worker(run *ev.Run, scs []*scenario, keys *wit.WitKeys, stores []string, di
 		}
 	}
 	sampled := map[string]bool{}
+	// Once a few executions have been found in violation the rest of the search adds nothing (and on a
+	// tree where requests wait for each other every further execution costs a BlockedAfter pause):
+	// every worker stops claiming jobs as soon as one of them has left the marker.
+	abortPath := filepath.Join(dir, "enough-violations")
+	nviol := 0
+	violated := func() bool {
+		nviol++
+		if nviol >= 3 {
+			_ = os.WriteFile(abortPath, []byte("x"), 0o644)
+			return true
+		}
+		return false
+	}
 	for ji, j := range jobs {
+		if _, err := os.Stat(abortPath); err == nil {
+			run.Count("jobs_skipped_after_violations")
+			continue
+		}
 		// dynamic distribution: every worker computes the same job list and claims jobs one at a time
 		// (subtree sizes differ by orders of magnitude, a static split leaves most workers idle)
 		f, err := os.OpenFile(filepath.Join(dir, fmt.Sprintf("claim-%d", ji)), os.O_CREATE|os.O_EXCL|os.O_WRONLY, 0o644)
@@ -507,6 +524,9 @@ func worker(run *ev.Run, scs []*scenario, keys *wit.WitKeys, stores []string, di
 				defer rec.store.Close() // (sql.DB.Close would wait for the blocked query forever)
 			}
 			run.Count("evaluations")
+			if e.BlockedEvents > 0 {
+				run.Add("tasks_judged_blocked_outside_storage", int64(e.BlockedEvents))
+			}
 			if j.kind == "mem" {
 				run.Count("schedules_mem")
 			} else {
@@ -529,7 +549,7 @@ func worker(run *ev.Run, scs []*scenario, keys *wit.WitKeys, stores []string, di
 			}
 			if e.Deadlock {
 				run.Violate("deadlock;"+what, "no parked task is enabled: a request is never answered (a storage transaction left open?)", unit, detail)
-				return true
+				return !violated()
 			}
 			run.Count("histories_checked")
 			vec := strings.Join(rec.outs, " | ")
@@ -537,9 +557,11 @@ func worker(run *ev.Run, scs []*scenario, keys *wit.WitKeys, stores []string, di
 				run.Count("storage_error_outcomes")
 			}
 			run.Distinct("nontrivial", what+" :: "+vec)
+			stop := false
 			switch lin.Check(lin.Model(rc.initial), rec.ops, 20*time.Second) {
 			case "illegal":
 				run.Violate("not_linearizable;"+what, "the outcomes are not those of any sequential order compatible with real time: "+vec, unit, detail)
+				stop = violated()
 			case "unknown":
 				run.Inconclusive("porcupine timed out")
 			}
@@ -558,7 +580,7 @@ func worker(run *ev.Run, scs []*scenario, keys *wit.WitKeys, stores []string, di
 				sampled[what] = true
 				run.Sample(map[string]any{"scenario": what, "schedule": e.Trace, "outcomes": rec.outs})
 			}
-			return true
+			return !stop
 		})
 	}
 }
